@@ -320,7 +320,7 @@ def run(facts, chk, tier, only=None):
         n = 0
         fcb = facts.fn(CV + 'find_cutoff')
         callees = {}
-        for _, t in fcb.calls():
+        for _, t in [c for body in [fcb] + facts.closures_of(CV + 'find_cutoff') for c in body.calls()]:      # the search may be a closure (`(1..cap).find(|c| ..)`)
             nm = t.callee.name or ''
             if t.callee.krate == 'ska' and nm in facts.by_name and len(facts.by_name[nm]) == 1:
                 callees[nm] = facts.by_name[nm][0].arg_count
